@@ -241,8 +241,20 @@ def make_osutils(fs, base_cls):
             return filename in fs.special
 
         def get_temp_filename(self, filename):
+            # the library's own naming rule, with a deterministic "random"
+            # extension
             fs.ntemp += 1
-            return f'{filename}.{fs.ntemp:08X}'
+            real = getattr(base_cls, 'get_temp_filename', None)
+            if real is None:
+                return f'{filename}.{fs.ntemp:08X}'
+            import s3transfer.utils as U
+            saved = U.random_file_extension
+            U.random_file_extension = \
+                lambda num_digits=8: f'{fs.ntemp:0{num_digits}X}'
+            try:
+                return real(self, filename)
+            finally:
+                U.random_file_extension = saved
 
         def allocate(self, filename, size):
             fs.sched.point(None, 'fs.allocate')
